@@ -98,3 +98,12 @@ def replay_reg(p,repo):
   if not r['failed']: print("the contract holds on this design: NOT reproduced"); return 0
   for f in r['failed']: print("FAILED     :",f)
   return 1
+
+def replay_bs(p,repo):
+  if repo not in sys.path: sys.path.insert(0,repo)
+  from zoo import bscheck
+  print("check      : bitstruct class factory - same-named declarations keep their own shape (zoo/bscheck.py)")
+  r=bscheck.check(repo)
+  if not r: print("the contract holds: NOT reproduced"); return 0
+  for x in r: print("FAILED     :",x)
+  return 1
